@@ -21,6 +21,14 @@ type c06In struct {
 	Script     StreamScript `json:"script"`
 	Schema     string       `json:"schema"` // InputSchemaVariant of the client's input stream
 	Items      []InputItem  `json:"items"`
+	// Dynamic: the call goes to "dyn" (DynamicStreamWithHeader: no registered input/output
+	// schema, mode decided by the state's interface); Declared = the input schema the init
+	// handler declares on its StreamResult for THIS call: "x" {x:int64} | "y" {y:int64} | "xz" {x,z:int64}.
+	Dynamic  bool   `json:"dynamic,omitempty"`
+	Declared string `json:"declared,omitempty"`
+	// Before: stream calls made earlier on the SAME server and pipe (each followed by its
+	// own sentinel). The case is the history Before ++ [this call]; every call is judged on its own.
+	Before []c06In `json:"before,omitempty"`
 }
 
 const c06SentinelX = 7
@@ -80,6 +88,8 @@ func c06Gen(r *rand.Rand, n int, tier string) []c06In {
 		return "empty"
 	}
 	lg := func(l, m string) LogSpec { return LogSpec{Level: l, Msg: m} }
+	// boundary 0: histories of several calls on one server (dynamic method with per-call declared input schema)
+	out = append(out, c06Histories()...)
 	// boundary 1: every act at every position 0..2 of a 4-input stream, both modes
 	for _, ex := range []bool{false, true} {
 		for _, act := range c06Acts {
@@ -155,7 +165,7 @@ func c06Gen(r *rand.Rand, n int, tier string) []c06In {
 		}
 		return ls
 	}
-	for len(out) < n {
+	randCall := func() c06In {
 		ex := r.Intn(2) == 0
 		in := c06In{Exchange: ex, DeclHeader: r.Intn(3) == 0, X: r.Int63n(2000) - 1000,
 			ReqID: []string{"", "r-1", "0123456789abcdef", "req id"}[r.Intn(4)], LogLevel: c04Levels[r.Intn(len(c04Levels))]}
@@ -202,10 +212,101 @@ func c06Gen(r *rand.Rand, n int, tier string) []c06In {
 			ca = r.Intn(nin + 1) // may be == nin: no cancel
 		}
 		in.Items = c06Items(in.Schema, r, nin, ca)
+		if r.Intn(3) == 0 { // dynamic method: run-time declared input schema
+			in.Dynamic, in.DeclHeader = true, true
+			in.Declared = c06Decls[r.Intn(len(c06Decls))]
+			if ex {
+				if r.Intn(4) != 0 {
+					in.Schema = c06DeclClient[in.Declared]
+				}
+				in.Items = c06Items(in.Schema, r, nin, ca)
+			}
+		}
 		if in.Items == nil {
 			in.Items = []InputItem{}
 		}
-		out = append(out, in)
+		return in
+	}
+	for len(out) < n {
+		c := randCall()
+		if r.Intn(4) == 0 { // a history: 1-3 earlier calls on the same server
+			for k := 1 + r.Intn(3); k > 0; k-- {
+				c.Before = append(c.Before, randCall())
+			}
+		}
+		out = append(out, c)
+	}
+	return out
+}
+
+var c06Decls = []string{"x", "y", "xz"}
+
+// client schema variant equal to each declarable schema
+var c06DeclClient = map[string]string{"x": "exact", "y": "badname", "xz": "extracol"}
+
+// c06Histories: boundary histories — several stream calls on one server, above all
+// calls of the dynamic method whose init handler declares a different input schema each time.
+func c06Histories() []c06In {
+	var out []c06In
+	h := int64(5)
+	dyn := func(ex bool, decl, client string, nin int, x int64) c06In {
+		c := c06In{Exchange: ex, DeclHeader: true, Dynamic: true, Declared: decl, X: x, ReqID: fmt.Sprintf("d%d", x), Schema: client,
+			Script: StreamScript{Canceller: true, Turns: []TurnScript{{Act: "emit", Value: 100 * x}, {Act: "emit", Value: 100*x + 1, Logs: []LogSpec{{Level: "INFO", Msg: "l"}}}}}}
+		c.Items = c06Items(client, nil, nin, -1)
+		if c.Items == nil {
+			c.Items = []InputItem{}
+		}
+		return c
+	}
+	reg := func(ex bool, hdr bool, x int64) c06In {
+		sch := "empty"
+		if ex {
+			sch = "exact"
+		}
+		c := c06In{Exchange: ex, DeclHeader: hdr, X: x, ReqID: "reg", Schema: sch, Items: c06Items(sch, nil, 2, -1),
+			Script: StreamScript{Turns: []TurnScript{{Act: "emit", Value: x}}}}
+		return c
+	}
+	hist := func(cs ...c06In) c06In {
+		last := cs[len(cs)-1]
+		last.Before = append([]c06In(nil), cs[:len(cs)-1]...)
+		return last
+	}
+	// every ordered pair of declared schemas, each call fed inputs of exactly its own declared schema
+	for _, d1 := range c06Decls {
+		for _, d2 := range c06Decls {
+			out = append(out, hist(dyn(true, d1, c06DeclClient[d1], 2, 1), dyn(true, d2, c06DeclClient[d2], 3, 2)))
+		}
+	}
+	// three calls, all orders of the three schemas' rotations; producer calls of the dynamic method in between
+	out = append(out, hist(dyn(true, "x", "exact", 1, 1), dyn(true, "y", "badname", 2, 2), dyn(true, "xz", "extracol", 2, 3)))
+	out = append(out, hist(dyn(true, "xz", "extracol", 2, 1), dyn(true, "x", "int32", 2, 2), dyn(true, "y", "badname", 1, 3)))
+	out = append(out, hist(dyn(false, "x", "empty", 2, 1), dyn(true, "y", "badname", 2, 2)))
+	out = append(out, hist(dyn(true, "y", "badname", 2, 1), dyn(false, "x", "empty", 3, 2), dyn(true, "x", "nullable", 2, 3)))
+	out = append(out, hist(dyn(true, "x", "exact", 0, 1), dyn(true, "xz", "extracol", 2, 2))) // first call reads no input at all
+	// first call fails at init / is refused by the cast / is cancelled; the second declares another schema
+	e := c06Errs()[0]
+	f := dyn(true, "x", "exact", 2, 1)
+	f.Script.Init.Err = &e
+	out = append(out, hist(f, dyn(true, "y", "badname", 2, 2)))
+	out = append(out, hist(dyn(true, "x", "badname", 2, 1), dyn(true, "y", "badname", 2, 2)))
+	out = append(out, hist(dyn(true, "y", "exact", 2, 1), dyn(true, "x", "exact", 2, 2)))
+	cz := dyn(true, "xz", "extracol", 3, 1)
+	cz.Items[1].Kind = "cancel"
+	out = append(out, hist(cz, dyn(true, "y", "badname", 2, 2)))
+	// registered methods interleaved with the dynamic one, and repeated registered calls
+	out = append(out, hist(reg(true, false, 1), dyn(true, "y", "badname", 2, 2), reg(true, true, 3)))
+	out = append(out, hist(dyn(true, "xz", "extracol", 2, 1), reg(true, false, 2), dyn(true, "y", "badname", 2, 3)))
+	out = append(out, hist(reg(true, false, 1), reg(true, false, 2)), hist(reg(false, true, 1), reg(true, true, 2), reg(false, false, 3)))
+	hd := dyn(true, "y", "badname", 2, 2)
+	hd.Script.Header = &h
+	out = append(out, hist(dyn(true, "x", "exact", 2, 1), hd))
+	// single dynamic calls: every declared schema against every client schema, both modes
+	for _, d := range c06Decls {
+		for _, cs := range c06Schemas {
+			out = append(out, dyn(true, d, cs, 2, 4))
+		}
+		out = append(out, dyn(false, d, "empty", 2, 5))
 	}
 	return out
 }
@@ -252,12 +353,10 @@ func c06Call(s string) string {
 	return "C06.COther"
 }
 
-func c06Run(in c06In) CaseOut {
-	sf := newSurface()
-	defer sf.Close()
-	s := NewScriptedServer(sf)
-	sf.PushStream(in.Script)
-	sf.PushUnary(CallScript{})
+func c06Method(in c06In) string {
+	if in.Dynamic {
+		return "dyn"
+	}
 	method := "prod"
 	if in.Exchange {
 		method = "exch"
@@ -265,13 +364,96 @@ func c06Run(in c06In) CaseOut {
 	if in.DeclHeader {
 		method += "_h"
 	}
+	return method
+}
+
+// c06Run runs the history in.Before ++ [in] on ONE server over ONE pipe; every call is
+// followed by a sentinel unary call. The response streams and the call trace are cut
+// after every sentinel, and each call is rendered (and judged) with its own slice.
+func c06Run(in c06In) CaseOut {
+	sf := newSurface()
+	defer sf.Close()
+	s := NewScriptedServer(sf)
+	c06RegisterDyn(s, sf)
+	defer c06DynQ.Delete(sf.ID)
+	last := in
+	last.Before = nil
+	calls := append(append([]c06In(nil), in.Before...), last)
 	var wire []byte
-	wire = append(wire, ReqBytes(PIntBatch(in.X), StdMeta(method, in.ReqID, in.LogLevel))...)
-	wire = append(wire, InputBytesTyped(InputSchemaVariant(in.Schema), in.Items)...)
-	wire = append(wire, ReqBytes(PIntBatch(c06SentinelX), StdMeta("u_int", "sentinel", ""))...)
+	for _, c := range calls {
+		c.Before = nil
+		sf.PushStream(c.Script)
+		sf.PushUnary(CallScript{})
+		if c.Dynamic {
+			c06PushDyn(sf, c.Exchange, c.Declared)
+		}
+		wire = append(wire, ReqBytes(PIntBatch(c.X), StdMeta(c06Method(c), c.ReqID, c.LogLevel))...)
+		wire = append(wire, InputBytesTyped(InputSchemaVariant(c.Schema), c.Items)...)
+		wire = append(wire, ReqBytes(PIntBatch(c06SentinelX), StdMeta("u_int", "sentinel", ""))...)
+	}
 	body, esc := RunPipe(s, wire)
-	streams := ParseStreams(body)
-	broken := esc != nil
+	all := ParseStreams(body)
+	// cut after every sentinel response / sentinel call; leftovers go to the last call
+	var sStreams [][]RStream
+	var cur []RStream
+	for _, st := range all {
+		cur = append(cur, st)
+		if st.Schema == "result:int64" && len(sStreams) < len(calls)-1 {
+			sStreams, cur = append(sStreams, cur), nil
+		}
+	}
+	sStreams = append(sStreams, cur)
+	var sTrace [][]string
+	var curT []string
+	for _, t := range sf.Trace {
+		curT = append(curT, t)
+		if strings.HasPrefix(t, "u_int(") && len(sTrace) < len(calls)-1 {
+			sTrace, curT = append(sTrace, curT), nil
+		}
+	}
+	sTrace = append(sTrace, curT)
+	for len(sStreams) < len(calls) {
+		sStreams = append(sStreams, nil)
+	}
+	for len(sTrace) < len(calls) {
+		sTrace = append(sTrace, nil)
+	}
+	var ins, obs []string
+	var tags []string
+	nontrivial := false
+	var perCall []map[string]any
+	for k, c := range calls {
+		ci, co, tg, nt, o := c06One(c, sStreams[k], sTrace[k], esc != nil)
+		ins, obs = append(ins, ci), append(obs, co)
+		if k == len(calls)-1 {
+			tags = tg
+		}
+		nontrivial = nontrivial || nt
+		perCall = append(perCall, o)
+	}
+	tags = append(tags, fmt.Sprintf("history-%d", len(calls)))
+	ndyn := 0
+	decls := map[string]bool{}
+	for _, c := range calls {
+		if c.Dynamic {
+			ndyn++
+			if c.Exchange {
+				decls[c.Declared] = true
+			}
+		}
+	}
+	if ndyn > 0 {
+		tags = append(tags, fmt.Sprintf("dyn-calls-%d", min(ndyn, 3)))
+	}
+	if len(decls) > 1 {
+		tags = append(tags, "dyn-schemas-differ")
+	}
+	return CaseOut{Coq: Pair(List(ins), List(obs)), Tags: tags, Nontrivial: nontrivial, Obs: map[string]any{"calls": perCall}}
+}
+
+// c06One renders one call of a history with its own slice of the observables.
+func c06One(in c06In, streams []RStream, trace []string, escaped bool) (string, string, []string, bool, map[string]any) {
+	broken := escaped
 	for _, st := range streams {
 		if st.Err != "" {
 			broken = true
@@ -292,7 +474,7 @@ func c06Run(in c06In) CaseOut {
 		tags = append(tags, "header")
 	}
 	nturn, ncancel, nexc, ndata := 0, 0, 0, 0
-	for _, c := range sf.Trace {
+	for _, c := range trace {
 		if strings.HasPrefix(c, "produce#") || strings.HasPrefix(c, "exchange#") {
 			nturn++
 		}
@@ -344,19 +526,23 @@ func c06Run(in c06In) CaseOut {
 		return App("C06.Data", ListOf(it.Vals, Z))
 	})
 	schema := map[string]string{"exact": "C06.SExact", "int32": "C06.SInt32", "nullable": "C06.SNullable", "badname": "C06.SBadName", "extracol": "C06.SExtraCol", "empty": "C06.SEmpty"}[in.Schema]
+	decl := map[string]string{"": "C06.DeclX", "x": "C06.DeclX", "y": "C06.DeclY", "xz": "C06.DeclXZ"}[in.Declared]
+	if in.Dynamic {
+		tags = append(tags, "dynamic", "declared-"+in.Declared)
+	}
 	hdr := "None"
 	if in.Script.Header != nil {
 		hdr = App("Some", Z(*in.Script.Header))
 	}
 	coqIn := App("C06.Build_input", mode, Bool(in.DeclHeader), Z(in.X), B(in.ReqID), B(in.LogLevel),
 		c06Logs(in.Script.Init.Logs), coqFailure(in.Script.Init.Err), hdr, Bool(in.Script.Canceller),
-		ListOf(in.Script.Turns, c06Turn), schema, items)
-	coqObs := App("C06.Build_obs", Bool(broken), coqStreams(streams), ListOf(sf.Trace, c06Call))
-	return CaseOut{Coq: Pair(coqIn, coqObs), Tags: tags, Nontrivial: nturn > 0 || ncancel > 0 || nexc > 0,
-		Obs: map[string]any{"broken": broken, "streams": streams, "trace": sf.Trace, "data_batches": ndata}}
+		ListOf(in.Script.Turns, c06Turn), schema, items, Bool(in.Dynamic), decl)
+	coqObs := App("C06.Build_obs", Bool(broken), coqStreams(streams), ListOf(trace, c06Call))
+	return coqIn, coqObs, tags, nturn > 0 || ncancel > 0 || nexc > 0,
+		map[string]any{"method": c06Method(in), "broken": broken, "streams": streams, "trace": trace, "data_batches": ndata}
 }
 
 func init() {
-	Register("C06", "boundary first (every act emit/emit2/noemit/finish/emit_finish/err/finish-ignored/emit-finish-ignored at turn 0..2 in both modes; cancel at input 0..3 with/without a canceller state and with inputs after it; header declared x given; all 6 client input schemas incl. int32->int64 and nullable casts and 3 uncastable ones against both modes; empty input; script shorter than input; init failure), then random stream calls: 0-6 scripted turns (20% non-emit acts, 7 failure kinds), 0-3 logs per turn at any level text with extras, user metadata on data batches, 0-7 inputs with 0-3 rows each, cancel at a random position in 1/3 of the cases (any cancel value text), random requested level and request id; 1/5 of the cases form the malformed stream (any schema against any mode, init failures). Every case is followed by a sentinel unary call on the same pipe. non-trivial = at least one turn ran, or the cancel hook ran, or an exception batch was produced; distinct = distinct input JSON",
+	Register("C06", "boundary first (HISTORIES of 2-3 stream calls on one server and pipe: every ordered pair and two rotations of the input schemas {x}|{y}|{x,z} a DYNAMIC method (DynamicStreamWithHeader) declares per call, each call fed inputs of its own declared schema, with producer-mode dynamic calls, an init failure, a cast refusal, a cancel, an empty input or registered-method calls in between; every declared schema x every client schema as single dynamic calls; then every act emit/emit2/noemit/finish/emit_finish/err/finish-ignored/emit-finish-ignored at turn 0..2 in both modes; cancel at input 0..3 with/without a canceller state and with inputs after it; header declared x given; all 6 client input schemas incl. int32->int64 and nullable casts and 3 uncastable ones against both modes; empty input; script shorter than input; init failure), then random stream calls: 0-6 scripted turns (20% non-emit acts, 7 failure kinds), 0-3 logs per turn at any level text with extras, user metadata on data batches, 0-7 inputs with 0-3 rows each, cancel at a random position in 1/3 of the cases (any cancel value text), random requested level and request id; 1/5 of the cases form the malformed stream (any schema against any mode, init failures). 1/3 of the random calls go to the dynamic method (declared schema random, client schema equal to it in 3/4), 1/4 of the random cases are histories with 1-3 earlier random calls on the same server. Every call is followed by a sentinel unary call on the same pipe and is judged on its own slice of the response streams and call trace. non-trivial = at least one turn ran, or the cancel hook ran, or an exception batch was produced; distinct = distinct input JSON",
 		c06Gen, c06Run)
 }
